@@ -59,7 +59,7 @@ def extract(crate_dir="/repo", config="debug", crate_name="poster", use_cache=Tr
         raise RuntimeError("driver not built: run MANIFEST.setup_cmd (./setup.sh)")
     os.makedirs(CACHE, exist_ok=True)
     key, nfiles = tree_hash(crate_dir, config, crate_name)
-    out = os.path.join(CACHE, "facts-%s-%s-%s.json" % (crate_name, config, key))
+    out = os.path.join(CACHE, "facts-%s-%s-%s.json.gz" % (crate_name, config, key))
     info = {"config": config, "key": key, "source_files_hashed": nfiles, "cached": False,
             "crate_dir": crate_dir}
     lock_path = out + ".lock"
@@ -88,7 +88,10 @@ def extract(crate_dir="/repo", config="debug", crate_name="poster", use_cache=Tr
                 if p.returncode != 0 or not os.path.exists(env["POSTER_FACTS_OUT"]):
                     tail = "\n".join(p.stdout.splitlines()[-40:])
                     raise RuntimeError("extraction failed (tree does not compile under the driver?)\n" + tail)
-                shutil.move(env["POSTER_FACTS_OUT"], out)
+                import gzip
+                with open(env["POSTER_FACTS_OUT"], "rb") as fin, gzip.open(out + ".tmp", "wb", compresslevel=4) as fout:
+                    shutil.copyfileobj(fin, fout)
+                os.replace(out + ".tmp", out)
             finally:
                 shutil.rmtree(tmp, ignore_errors=True)
             info["extract_s"] = round(time.time() - t0, 2)
@@ -98,9 +101,12 @@ def extract(crate_dir="/repo", config="debug", crate_name="poster", use_cache=Tr
             fcntl.flock(lock, fcntl.LOCK_UN)
 
 
-def _gc(keep, max_files=12):
+def _gc(keep, max_files=200):
     try:
-        fs = [os.path.join(CACHE, f) for f in os.listdir(CACHE) if f.startswith("facts-") and f.endswith(".json")]
+        for f in os.listdir(CACHE):
+            if f.startswith("facts-") and (f.endswith(".json") or f.endswith(".json.lock")):
+                os.remove(os.path.join(CACHE, f))      # uncompressed files of older versions
+        fs = [os.path.join(CACHE, f) for f in os.listdir(CACHE) if f.startswith("facts-") and f.endswith(".json.gz")]
         fs.sort(key=os.path.getmtime, reverse=True)
         for f in fs[max_files:]:
             if f != keep:
